@@ -22,6 +22,7 @@ import (
 	"github.com/milvus-io/milvus/pkg/mq/msgstream"
 
 	"github.com/zilliztech/milvus-cdc/core/model"
+	"github.com/zilliztech/milvus-cdc/core/util"
 )
 
 type Barrier struct {
@@ -45,6 +46,7 @@ func NewBarrier(count int, f func(msgTs uint64, b *Barrier), u func(vchannel str
 			select {
 			case <-barrier.CloseChan:
 			case signal := <-barrier.BarrierSignalChan:
+				util.VerifPoint("barrier.signal", signal.VChannel)
 				if u != nil {
 					u(signal.VChannel, signal.Msg)
 				}
